@@ -226,8 +226,9 @@ type c13Run struct {
 	tr    c13Lock
 	ev    []map[string]interface{}
 	nev   int64
-	out   *os.File
-	wrote int
+	out    *os.File
+	wrote  int
+	closed bool
 
 	sw         *p2p.Switch
 	bcR        *BlockchainReactor
@@ -269,6 +270,9 @@ func (r *c13Run) flush() {
 }
 
 func (r *c13Run) log(e map[string]interface{}) map[string]interface{} {
+	if r.closed { // the run has been judged (End is written); the reactor keeps running until teardown
+		return e
+	}
 	e["run"] = r.runNo
 	r.ev = append(r.ev, e)
 	atomic.AddInt64(&r.nev, 1)
@@ -1027,6 +1031,7 @@ func (r *c13Run) execute() {
 	}
 	r.log(map[string]interface{}{"ev": "End", "handed": r.isHanded(), "stalled": stalled, "stable": stable, "stateH": int(st.LastBlockHeight),
 		"store": stored, "skipped": r.skipped, "nofill": r.sc.NoFill, "pairStuck": pairStuck, "hasHonest": r.hasHonest(), "honestInPool": honestInPool, "pool": r.pool()})
+	r.closed = true
 	r.tr.Unlock()
 }
 
